@@ -126,10 +126,6 @@ Definition C07_oracle_ok (c : C07_case) : bool :=
   negb (is_panic (c7_out c)) && (c7_peak c <=? MEM_C * len (c7_bytes c) + MEM_K) &&
   (c7_alloc c <=? ALLOC_C * len (c7_bytes c) + ALLOC_K).
 
-(* class 1: NACK_FRAG with numBits > 256 or base + bit > u32::MAX (C07-fragset-numbits)
-   class 2: INFO_REPLY locator count larger than the submessage (C07-inforeply-overread)
-   class 3: failing DATA/DATA_FRAG of length 0, rescanned (C07-data-rescan) *)
-Definition C07_known (c : C07_case) : N :=
-  if C07_known_fnset (c7_bytes c) then 1%N
-  else if C07_known_overread (c7_bytes c) then 2%N
-  else if C07_known_rescan (c7_bytes c) then 3%N else 0%N.
+(* no recorded classes: the three former ones (FragmentNumberSet numBits, INFO_REPLY over-read,
+   DATA rescan) were repaired in /repo (221c5f8, 0cb9fa7) and the model follows the fixed code *)
+Definition C07_known (c : C07_case) : N := 0%N.
